@@ -52,7 +52,7 @@ _rel("C08", "c08", "c08", "frames of 0-12 rows x 0-4 columns; Head/Tail/RowSlice
      "set and a recorded call log, Iloc/Loc with repeats and absent labels, MultiSelect, DropRow, DropColumn, Row, ColumnNames, Nrows/Ncols")
 _rel("C15", "c15", "c15", "frames with every nil pattern; FillNa with every kind of value; Astype over valid/unknown targets and columns "
      "of floats (negative fractions, large), ints, text, mixtures with one odd cell first/middle/last; AddDatetimeIndex over two layouts")
-_rel("C19", "c19", "c19", "frames of 0-12 rows, offsets from {0, +-1, +-(n-1), +-n, +-(n+1), +-2n, MinInt64, MinInt64+1, MaxInt64, MaxInt64-1} and small random")
+_rel("C19", ["c19", "c02"], "c19", "frames of 0-12 rows, offsets from {0, +-1, +-(n-1), +-n, +-(n+1), +-2n, MinInt64, MinInt64+1, MaxInt64, MaxInt64-1} and small random, interleaved with in-place edits of source and result (Shift(0) must be a copy)")
 
 PROPS["C04"] = {
     "spec_key": "c04",
